@@ -60,8 +60,9 @@ TLoadDone(g) ==
   /\ Log("par", g, "LoadDone", IF isDone THEN "abort" ELSE "go")
   /\ UNCHANGED <<bps, isDone, gen, chan, ctl, ncmd, emptyAtRunLoad, sentBp, wakes>>
 
+\* the look-up takes the lock of the breakpoint table: it waits while the controller holds it
 TLookup(g) ==
-  /\ th[g].pc = "lookup"
+  /\ th[g].pc = "lookup" /\ ctl # "bpheld"
   /\ th' = [th EXCEPT ![g] = IF @.bad THEN [@ EXCEPT !.pc = "exited", !.panicked = TRUE]      \* undefined rule: the VM panics
                              ELSE IF Entries[@.k] \in bps THEN [@ EXCEPT !.pc = "send"] ELSE Advance(@)]
   /\ Log("par", g, "Lookup", IF th[g].bad THEN "panic" ELSE IF Entries[th[g].k] \in bps THEN "hit" ELSE "miss")
@@ -102,7 +103,8 @@ TExit(g) ==
   /\ UNCHANGED <<bps, isDone, gen, chan, ctl, ncmd, emptyAtRunLoad, sentBp, wakes>>
 
 ParEnabled(g) ==
-  \/ th[g].pc \in {"load", "lookup", "finstore", "exit"}
+  \/ th[g].pc \in {"load", "finstore", "exit"}
+  \/ th[g].pc = "lookup" /\ ctl # "bpheld"
   \/ th[g].pc \in {"send", "finsend"} /\ Len(chan[g]) < Cap
   \/ th[g].pc = "park" /\ th[g].token
 
@@ -182,17 +184,24 @@ CRecv ==
   /\ Log("ctl", gen, "Recv", Head(chan[gen]))
   /\ UNCHANGED <<bps, isDone, gen, th, ctl, emptyAtRunLoad, sentBp, wakes>>
 
+\* a breakpoint command takes the lock of the table, changes it (logged here: no look-up can run before the release,
+\* so when exactly the change happens inside the critical section cannot be observed) and releases it
 CBp(op, r) ==
-  /\ CmdOk /\ ncmd' = ncmd + 1
+  /\ CmdOk /\ ncmd' = ncmd + 1 /\ ctl' = "bpheld"
   /\ bps' = CASE op = "add" -> bps \cup {r} [] op = "del" -> bps \ {r} [] op = "addall" -> bps \cup GrammarRules [] OTHER -> {}
   /\ Log("ctl", gen, op, r)
-  /\ UNCHANGED <<isDone, gen, th, chan, ctl, emptyAtRunLoad, sentBp, wakes>>
+  /\ UNCHANGED <<isDone, gen, th, chan, emptyAtRunLoad, sentBp, wakes>>
+
+CBpRelease ==
+  /\ ctl = "bpheld" /\ ctl' = "idle"
+  /\ Log("ctl", gen, "BpRelease", 0)
+  /\ UNCHANGED <<bps, isDone, gen, th, chan, ncmd, emptyAtRunLoad, sentBp, wakes>>
 
 Controller ==
   \/ CStartRun(FALSE) \/ (AllowBadRun /\ CStartRun(TRUE)) \/ CRunLoad \/ CRunStore \/ CRunUnpark \/ CRunJoin \/ CRunReset \/ CSpawn
   \/ CStartCont \/ CContLoad \/ CContUnpark \/ CRecv
   \/ \E r \in BpRules : CBp("add", r) \/ CBp("del", r)
-  \/ CBp("delall", "") \/ (AllowBadRun /\ CBp("addall", ""))
+  \/ CBp("delall", "") \/ (AllowBadRun /\ CBp("addall", "")) \/ CBpRelease
 
 Next == Controller \/ \E g \in Runs : Parser(g)
 Spec == Init /\ [][Next]_vars
